@@ -211,6 +211,7 @@ def sortedBy (cmp : WRow → WRow → Ordering) : List WRow → Bool
 def specSorted (keys : List SortKey) (rows : List WRow) : Bool :=
   sortedBy (specRowCmp keys) (rows.filter (fun r => !rowHasNaNKey keys r))
 
+
 /-- remove one occurrence. -/
 def eraseOne (r : WRow) : List WRow → Option (List WRow)
   | [] => none
@@ -222,35 +223,41 @@ def subMultiset : List WRow → List WRow → Option (List WRow)
     | some a' => subMultiset rs a'
     | none => none
 
-/-- Spec oracle for a page: is there a permutation `s` of `A` with `specSorted s` and
-    `page = take limit (drop offset s)`?  Decided by counting (see notes/C35.md): the rest `A∖page` must
-    split into `offset` rows placed before the page and the others after it, NaN-key rows going anywhere. -/
+/-- the slice the call site takes. -/
+def pageSlice (s : List WRow) (limit offset : Option Nat) : List WRow :=
+  match limit with
+  | some n => (s.drop (offset.getD 0)).take n
+  | none => s.drop (offset.getD 0)
+
+/-- length of that slice for an answer of `n` rows. -/
+def wantLen (n : Nat) (limit offset : Option Nat) : Nat :=
+  match limit with
+  | some l => min l (n - offset.getD 0)
+  | none => n - offset.getD 0
+
+def nfRow (keys : List SortKey) (r : WRow) : Bool := !rowHasNaNKey keys r
+
+/-- candidate permutation: `p` of the (sorted) NaN-free rest rows and `off - p` NaN-key rows before the
+    page, the others after it. -/
+def pageCand (page restNF restN : List WRow) (off p : Nat) : List WRow :=
+  (restNF.take p ++ restN.take (off - p)) ++ page ++ (restN.drop (off - p) ++ restNF.drop p)
+
+/-- Spec oracle for a page: is there a permutation `s` of `a` with `specSorted s` and
+    `page = take limit (drop offset s)`?  The rest `a ∖ page` is split into its NaN-free rows (sorted) and
+    its NaN-key rows; every number `p` of NaN-free rows placed before the page is tried, the candidate
+    permutation is built and checked.  Proved equivalent to the proposition (Lemmas.PageSpec). -/
 def specPageOk (keys : List SortKey) (a : List WRow) (limit offset : Option Nat) (page : List WRow) : Bool :=
-  let off := offset.getD 0
-  let want := match limit with
-    | some n => min n (a.length - off)
-    | none => a.length - off
-  if page.length != want then false else
-  if keys.isEmpty then                                   -- no annotation: the answer's own order is kept
-    page == (match limit with | some n => (a.drop off).take n | none => a.drop off) else
+  if keys.isEmpty then page == pageSlice a limit offset else       -- no annotation: the answer's own order
+  decide (page.length = wantLen a.length limit offset) &&
   match subMultiset page a with
   | none => false
   | some rest =>
-    let off := min off a.length
-    let nf := fun (l : List WRow) => l.filter (fun r => !rowHasNaNKey keys r)
-    let pageNF := nf page
-    let restNF := nf rest
-    let z := rest.length - restNF.length           -- NaN-key rows of the rest: filler for either side
-    let le := fun x y => specRowCmp keys x y != .gt
-    let canBefore := fun x => pageNF.all (fun y => le x y)
-    let canAfter := fun x => pageNF.all (fun y => le y x)
-    -- p = number of NaN-free rest rows placed before the page:  off - z ≤ p ≤ min off |restNF|,
-    -- every row that cannot go after must go before, only rows that can go before may
-    let mustBefore := (restNF.filter (fun x => !canAfter x)).length
-    let mayBefore := (restNF.filter canBefore).length
-    let lo := max (off - z) mustBefore
-    let hi := min (min off restNF.length) mayBefore
-    specSorted keys page && restNF.all (fun x => canBefore x || canAfter x) && decide (lo ≤ hi)
+    let off := min (offset.getD 0) a.length
+    let restNF := stdInsertionSort (fun x y => specRowCmp keys x y == .lt) (rest.filter (nfRow keys))
+    let restN := rest.filter (fun r => !nfRow keys r)
+    (List.range (restNF.length + 1)).any (fun p =>
+      decide (p ≤ off) && decide (off - p ≤ restN.length) &&
+      specSorted keys (pageCand page restNF restN off p))
 
 /-! ### line-protocol codec -/
 
